@@ -188,12 +188,17 @@ def run_diff(ctx, mods, keyfn=e2.default_key, on_build_failure='violation', work
         return False
 
     ctx.log('%d functions in crashed sweep groups: refining with crash-storm breaker (%d per class)' % (len(crashed_funcs), storm))
-    # stage A: one case per function (a child survives until a function crashes it); in waves so that saturation is seen
-    need_inputs = []
-    wave = 64
-    for i in range(0, len(crashed_funcs), wave):
+    # stage A: one case per function (run_cases restarts a child after a crash), in waves so that saturation is seen early;
+    # stage B: the crashing functions of a wave, at most `storm - seen` per class, ALL their inputs as single cases in one
+    # parallel call.
+    pos = 0
+    nwave = 0
+    while pos < len(crashed_funcs):
+        wave = 64 if nwave < 2 else 1024
+        nwave += 1
+        chunk_items, pos = crashed_funcs[pos:pos + wave], pos + wave
         batch = []
-        for item in crashed_funcs[i:i + wave]:
+        for item in chunk_items:
             light, m, fname, tag, ins = item
             if ins and saturated(tag, ins[0]):
                 st['functions_skipped'] += 1
@@ -203,37 +208,44 @@ def run_diff(ctx, mods, keyfn=e2.default_key, on_build_failure='violation', work
         if not batch:
             continue
         rr = runner.run_cases(e2._sweep, [(b[0], [(b[2], b[3], b[4])]) for b in batch], timeout=300, scratch=ctx.scratch)
-        single = []
+        taken = collections.Counter()
+        singles = []
         for item, r in zip(batch, rr):
             if r[0] == 'ok':
                 handle(item[1], r[1])
             elif r[0] == 'exc':
                 harness(item[1], r)
             else:
-                single.append(item)
-        # stage B: the crashing functions of this wave, input by input, until the class is saturated
-        for light, m, fname, tag, ins in single:
-            todo = list(ins)
-            while todo:
-                if saturated(tag, todo[0]):
-                    st['evaluations_skipped'] += len(todo)
-                    break
-                chunk, todo = todo[:16], todo[16:]
-                r2 = runner.run_cases(e2._sweep, [(light, [(fname, tag, [inp])]) for inp in chunk], timeout=60,
-                                      scratch=ctx.scratch)
-                for inp, r in zip(chunk, r2):
-                    if r[0] == 'ok':
-                        handle(m, r[1])
-                    elif r[0] in ('crash', 'timeout'):
-                        stats['crashes'] += 1
-                        stats['evaluations'] += 1
-                        counts[klass(tag, inp)] += 1
-                        got = ('crash', r[0], r[1])
-                        ctx.violation(keyfn(tag, inp, ('ok', ('?', '?')), got),
-                                      '%s%r: %s %s; output tail: %s' % (tag, tuple(inp), r[0], r[1], (r[2] or '')[-400:]),
-                                      crash_case(m, fname, tag, inp, got))
-                    else:
-                        harness(m, r)
+                light, m, fname, tag, ins = item
+                k = klass(tag, ins[0]) if ins else None
+                if k is None or saturated(tag, ins[0]) or counts[k] + taken[k] >= storm:
+                    st['functions_skipped'] += 1
+                    st['evaluations_skipped'] += len(ins)
+                    if k is not None and k not in st['classes_saturated']:
+                        st['classes_saturated'].append(k)
+                    continue
+                taken[k] += 1
+                for inp in ins:
+                    singles.append((light, m, fname, tag, inp))
+        if singles:
+            r2 = runner.run_cases(e2._sweep, [(x[0], [(x[2], x[3], [x[4]])]) for x in singles], timeout=60, scratch=ctx.scratch)
+            for (light, m, fname, tag, inp), r in zip(singles, r2):
+                if r[0] == 'ok':
+                    handle(m, r[1])
+                elif r[0] in ('crash', 'timeout'):
+                    stats['evaluations'] += 1
+                    k = klass(tag, inp)
+                    if counts[k] >= storm or stats['crashes'] >= max_crash_reports:
+                        st['evaluations_skipped'] += 1      # crashed, class already saturated: counted, not reported again
+                        continue
+                    stats['crashes'] += 1
+                    counts[k] += 1
+                    got = ('crash', r[0], r[1])
+                    ctx.violation(keyfn(tag, inp, ('ok', ('?', '?')), got),
+                                  '%s%r: %s %s; output tail: %s' % (tag, tuple(inp), r[0], r[1], (r[2] or '')[-400:]),
+                                  crash_case(m, fname, tag, inp, got))
+                else:
+                    harness(m, r)
     if st['functions_skipped'] or st['evaluations_skipped']:
         ctx.log('crash-storm breaker: %d functions / %d evaluations of saturated crash classes were not refined'
                 % (st['functions_skipped'], st['evaluations_skipped']))
